@@ -377,7 +377,7 @@ def write_replay(pid, f, tier, seed):
     search_log = ''
     rp = props.PROPS[pid].get('replay')
     if isinstance(rp, dict):
-        rp = rp.get(f.get('unit')) or rp.get('*')
+        rp = rp.get('%s::%s' % (f.get('unit'), f.get('function'))) or rp.get(f.get('unit')) or rp.get('*')
     if rp:
         try:
             cex, search_log = run_replay_search(rp, f, seed)
